@@ -205,6 +205,29 @@ impl Sim {
             app.edit_schedule(PostUpdate, |s| { s.set_executor_kind(ExecutorKind::SingleThreaded); });
             app.edit_schedule(Last, |s| { s.set_executor_kind(ExecutorKind::SingleThreaded); });
         }
+        // bystanders: other animated entities that are always present and keep producing state changes
+        // and Ended events of their own, so that any cross-entity leakage (shared state, events carrying
+        // the wrong entity, a chain reacting to another entity's event) disturbs the monitored entity
+        {
+            let slow = TlDesc { delay: 0.0, cycle: 1.0, repeat: Repeat::Infinite, reverse: true, variant: 0 };
+            let quick = TlDesc { delay: 0.0, cycle: 0.125, repeat: Repeat::None, reverse: false, variant: 1 };
+            let quick2 = TlDesc { delay: 0.125, cycle: 0.125, repeat: Repeat::Times(1), reverse: false, variant: 2 };
+            app.world.spawn((
+                Cv::default(),
+                Animator::<Cv>::with_timeline(slow.build_cv()),
+                Dv::default(),
+                Animator::<Dv>::with_timeline(quick2.build_dv()),
+            ));
+            let mut tls: bevy::utils::HashMap<Key, Box<dyn SafeTimeline<Target = Cv>>> = bevy::utils::HashMap::new();
+            tls.insert(Key::Go, Box::new(quick.build_cv()));
+            tls.insert(Key::Done, Box::new(quick2.build_cv()));
+            app.world.spawn((
+                Cv::default(),
+                Animator::<Cv>::new(),
+                AnimationSelector::<Key, Cv>::new(tls, Key::Go),
+                AnimationChainBuilder::<Key>::new().add(Key::Go, Key::Done).add(Key::Done, Key::Go).build(),
+            ));
+        }
         // settle: build schedules, drain nothing
         app.update();
         Sim { app, now: start, reader: ManualEventReader::default() }
